@@ -237,3 +237,84 @@ Theorem C19_null_handle : forall E v s t c,
   exists s' o, step E v s t c = Some (s', Made (-1006) o).
 Proof. exact null_handle_invalid. Qed.
 Print Assumptions C19_null_handle.
+
+(* ==== TIE TO THE SOURCE CODE: the buffer protocol of gentl/src/ffi/mod.rs ====================================
+   tools/translate_gentl.py re-translates on every run `impl From<&GenTlError> for GC_ERROR`, INFO_DATATYPE and EVERY
+   `impl CopyTo for ..` (incl. the six expansions of impl_copy_to_for_numeric!) into gen/GenTLSrc.v; the raw-pointer
+   operations get their meaning in model/GtlOps.v (state [gdst] = NULL flag of dst, the cell behind dst_size, the
+   caller's buffer; a translated function also returns the state it leaves behind when it fails).
+   [buf_ok s]: a non-NULL buffer has at least the *dst_size bytes it announces.  [dst_of s] is the model's view of the
+   two pointers, [proto_answer s r] the state the model's answer r describes (written bytes at the start of the buffer,
+   the rest untouched, the stored size; on an error NOTHING changed). *)
+From Cam Require Import RustInt GtlOps GenTLSrc P_C19s.
+
+(* &str (any byte list shorter than 2^64 - 1 bytes, ASCII or not), &[u8], and the two text enums that forward to &str:
+   exactly the model's str_copy_to / copy_to, for every destination and every in-size. *)
+Theorem C19_copy_str_from_source :
+  (forall v s, zlen v + 1 < 2 ^ 64 -> buf_ok s ->
+     src_copy_to_str v s = proto_answer s (str_copy_to v (dst_of s))) /\
+  (forall v s, buf_ok s -> src_copy_to_bytes v s = proto_answer s (copy_to v (dst_of s))) /\
+  (forall s, buf_ok s ->
+     (forall t, src_copy_to_TlType t s = proto_answer s (str_copy_to (tl_text t) (dst_of s))) /\
+     (forall t, src_copy_to_ModuleType t s = proto_answer s (str_copy_to (module_text t) (dst_of s)))).
+Proof. exact copy_str_all_from_source. Qed.
+Print Assumptions C19_copy_str_from_source.
+
+(* bool8_t, the six invocations of impl_copy_to_for_numeric! and DeviceAccessStatus (its i32 discriminant): for EVERY
+   integer x the little-endian bytes of x, by the model's copy_to. *)
+Theorem C19_copy_numeric_from_source : forall x s, buf_ok s ->
+  src_copy_to_bool8 x s = proto_answer s (copy_to (le_bytes 1 x) (dst_of s)) /\
+  src_copy_to_i16 x s = proto_answer s (copy_to (le_bytes 2 x) (dst_of s)) /\
+  src_copy_to_u16 x s = proto_answer s (copy_to (le_bytes 2 x) (dst_of s)) /\
+  src_copy_to_i32 x s = proto_answer s (copy_to (le_bytes 4 x) (dst_of s)) /\
+  src_copy_to_u32 x s = proto_answer s (copy_to (le_bytes 4 x) (dst_of s)) /\
+  src_copy_to_i64 x s = proto_answer s (copy_to (le_bytes 8 x) (dst_of s)) /\
+  src_copy_to_u64 x s = proto_answer s (copy_to (le_bytes 8 x) (dst_of s)) /\
+  src_copy_to_DeviceAccessStatus x s = proto_answer s (copy_to (le_bytes 4 x) (dst_of s)).
+Proof. exact copy_numeric_from_source. Qed.
+Print Assumptions C19_copy_numeric_from_source.
+
+(* The translated GC_ERROR table is the model's code_of (same variants, same numbers, all distinct, all within
+   -1023 .. -1001; success is 0) and info_data_type() of every implementation is the model's type number. *)
+Theorem C19_error_codes_from_source :
+  (forall e, src_gc_error_code (ge_of e) = code_of e) /\
+  (forall g, exists e, ge_of e = g) /\
+  (forall g, In g src_gentl_errors) /\
+  NoDup (map src_gc_error_code src_gentl_errors) /\
+  (forall g, -1023 <= src_gc_error_code g <= -1001) /\
+  src_gc_ok_code = 0 /\
+  [src_info_type_str; src_info_type_bytes; src_info_type_bool8; src_info_type_i32; src_info_type_u32;
+   src_info_type_i64; src_info_type_u64; src_info_type_TlType; src_info_type_ModuleType;
+   src_info_type_DeviceAccessStatus]
+  = [T_STRING; T_BUFFER; T_BOOL8; T_INT32; T_UINT32; T_INT64; T_UINT64; T_STRING; T_STRING; T_INT32].
+Proof. exact error_codes_from_source. Qed.
+Print Assumptions C19_error_codes_from_source.
+
+(* The buffer protocol on the translated code alone ([protocol_of f bytes], P_C19s.v): NULL destination -> Ok, nothing
+   written, *dst_size = size of the value (a string counts its NUL terminator); a buffer announced smaller than that ->
+   GC_ERR_BUFFER_TOO_SMALL (-1016), nothing written and *dst_size LEFT UNCHANGED (the code does not report the needed
+   size on this path); otherwise exactly the value's bytes at the start of the buffer, the rest untouched, *dst_size =
+   the size.  A non-ASCII string is refused with INVALID_VALUE (-1019) before anything is touched. *)
+Theorem C19_buffer_protocol_of_source :
+  (forall v, zlen v + 1 < 2 ^ 64 -> s_is_ascii v = true -> protocol_of (src_copy_to_str v) (v ++ [0])) /\
+  (forall v s, s_is_ascii v = false -> src_copy_to_str v s = (Err (-1019), s)) /\
+  (forall v, protocol_of (src_copy_to_bytes v) v) /\
+  (forall x, protocol_of (src_copy_to_bool8 x) (le_bytes 1 x) /\
+             protocol_of (src_copy_to_i16 x) (le_bytes 2 x) /\ protocol_of (src_copy_to_u16 x) (le_bytes 2 x) /\
+             protocol_of (src_copy_to_i32 x) (le_bytes 4 x) /\ protocol_of (src_copy_to_u32 x) (le_bytes 4 x) /\
+             protocol_of (src_copy_to_i64 x) (le_bytes 8 x) /\ protocol_of (src_copy_to_u64 x) (le_bytes 8 x)).
+Proof. exact buffer_protocol_of_source. Qed.
+Print Assumptions C19_buffer_protocol_of_source.
+
+(* Evaluated on the translated code (vm_compute): "U3V" into a 6 byte buffer, a size query, one byte too small, a
+   non-ASCII string, -2 as an i32, a u64 into 7 bytes, and a caller that lies about its buffer (= out-of-bounds write). *)
+Theorem C19_source_examples :
+  src_copy_to_TlType TL_USB3Vision (st false 6 [9; 9; 9; 9; 9; 9]) = (Ok tt, st false 4 [85; 51; 86; 0; 9; 9]) /\
+  src_copy_to_TlType TL_USB3Vision (st true 0 []) = (Ok tt, st true 4 []) /\
+  src_copy_to_TlType TL_USB3Vision (st false 3 [9; 9; 9]) = (Err (-1016), st false 3 [9; 9; 9]) /\
+  src_copy_to_str [200] (st false 8 [9; 9; 9; 9; 9; 9; 9; 9]) = (Err (-1019), st false 8 [9; 9; 9; 9; 9; 9; 9; 9]) /\
+  src_copy_to_i32 (-2) (st false 5 [9; 9; 9; 9; 9]) = (Ok tt, st false 4 [254; 255; 255; 255; 9]) /\
+  src_copy_to_u64 1 (st false 7 [9; 9; 9; 9; 9; 9; 9]) = (Err (-1016), st false 7 [9; 9; 9; 9; 9; 9; 9]) /\
+  fst (src_copy_to_i32 7 (st false 4 [9; 9])) = Panic.
+Proof. exact source_examples. Qed.
+Print Assumptions C19_source_examples.
